@@ -83,6 +83,42 @@ fn run_event(out: &mut Out, t: &Tree, meth: &str, preset: &str, k: usize, budget
     }
 }
 
+/// a run of Full / vanilla on a game whose numbers do not fit the micro-units of the trace: tokens only
+fn xrun_event(out: &mut Out, name: &str, t: &Tree, k: usize, budget: u64, thr: f64) -> bool {
+    use cfr::verif;
+    let par = cfr::preset("vanilla");
+    let t2 = t.clone();
+    let res = util::catch(move || {
+        let game = tree::build(&t2).map_err(|e| format!("{e:?}"))?;
+        verif::reset();
+        verif::set_record(true, false);
+        let res = game.solve(cfr::method("Full"), budget, thr, k, Some(cfr::params(&par)));
+        let log = verif::take_log();
+        verif::reset();
+        let iters = log.iter().filter(|e| matches!(e, verif::Event::IterEnd(..))).count();
+        let (strat, bound) = res.map_err(|e| format!("{e:?}"))?;
+        let info = strat.get_info();
+        Ok::<_, String>((
+            iters,
+            [bound.player_regret_bound(cfr::PlayerNum::One), bound.player_regret_bound(cfr::PlayerNum::Two), bound.regret_bound()],
+            [info.player_regret(cfr::PlayerNum::One), info.player_regret(cfr::PlayerNum::Two), info.regret()],
+        ))
+    });
+    match res {
+        Ok(Ok((iters, b, r))) => {
+            out.line(&json!({"e": "xrun", "game": name, "method": "Full", "preset": "vanilla", "k": k, "T": budget, "iters": iters,
+                "b1": util::token(b[0]), "b2": util::token(b[1]), "bt": util::token(b[2]),
+                "r1": util::token(r[0]), "r2": util::token(r[1]), "rt": util::token(r[2]), "thr": util::token(thr),
+                "values": format!("bounds {b:?} regrets {r:?}")}));
+            true
+        }
+        Ok(Err(msg)) | Err(msg) => {
+            out.line(&json!({"e": "failed", "method": "Full", "preset": "vanilla", "k": k, "T": budget, "what": msg}));
+            false
+        }
+    }
+}
+
 pub fn record(args: &Args) {
     let seed = args.num("seed", 1);
     let n = args.num("n", 20);
@@ -178,6 +214,21 @@ pub fn record(args: &Args) {
         }
         if samples.len() < 2 {
             samples.push(json!({"game": name, "nodes": t.count()}));
+        }
+    }
+    if mode == "c02" {
+        // EXTREME magnitudes: no envelope (the statistics leave 32 bits), the comparison bound >= true regret on the
+        // floating-point numbers themselves (order tokens)
+        for (name, t) in zoo::extreme() {
+            for budget in [1u64, 4, 25, 100, 400] {
+                for k in [1usize, 2] {
+                    for thr in [0.0, 0.05] {
+                        if xrun_event(&mut out, &name, &t, k, budget, thr) {
+                            runs += 1;
+                        }
+                    }
+                }
+            }
         }
     }
     out.line(&json!({"e": "corpus"}));
